@@ -11,9 +11,10 @@ def literal(prog, modname, name, func=None):
     if func is None:
         node = m.assigns.get(name)
     else:
-        for n in ast.walk(func.node):
-            if isinstance(n, ast.Assign) and len(n.targets) == 1 and isinstance(n.targets[0], ast.Name) and n.targets[0].id == name:
-                node = n.value
+        cands = sorted((n for n in ast.walk(func.node) if isinstance(n, ast.Assign) and len(n.targets) == 1
+                        and isinstance(n.targets[0], ast.Name) and n.targets[0].id == name), key=lambda n: n.lineno)
+        if cands:
+            node = cands[0].value        # the initial (literal) binding; later rebinding (reshape, roll) is judged by the rules
     if node is None:
         raise AnalysisError(f'table {modname}.{name} not found')
     v = node
